@@ -325,7 +325,7 @@ class ModuleFinder:
                 continue
             py_file = rel_subpath.suffix == ".py"
             stem = rel_subpath.stem
-            if not py_file:
+            if rel_subpath.suffix not in {".py", ".pyi"}:
                 # `.py[cod]` and `.so` files look like `name.cpython-38-x86_64-linux-gnu.ext`.
                 stem = stem.split(".", 1)[0]
             if stem == "__init__":
